@@ -444,6 +444,7 @@ RULES = [
     ("X-BRACKETS", "wherever the parser tests for a closing bracket of one style it provides for the other style as well [shared]", lambda ctx: __import__("extra2").bracket_styles_agree(ctx)),
     ("X-REEVAL", "an expression evaluated twice for one entry has the same typed value both times (no text-valued memo beside the map handed in) [shared]", lambda ctx: __import__("gcev").reevaluation_is_stable(ctx)),
     ("X-EXPRWALK", "recursive walks of an expression's value layer visit left, right and the further arguments [shared]", lambda ctx: __import__("extra2").value_walks_reach_arguments(ctx)),
+    ("C02-R8", "comparisons of arithmetic results (Float values) against literals are numeric, signed zeroes included [shared with C02]", lambda ctx: __import__("c02").r8(ctx)),
 ]
 
 EXPLANATION = (
